@@ -689,9 +689,19 @@ func main() {
 	f.WriteString(fmt.Sprintf("Definition genesis_supply : Z := %s.\n", hx.ZInt(genesisSupply)))
 	out.WriteFile("pre.v", f.String())
 	out.WriteFile("cases.txt", strings.Join(lines, "\n")+"\n")
-	out.WriteJSON("meta.json", map[string]string{"case_type": "c13_case", "mismatch_fn": "c13_mismatches t0 reg0 ubis0 cap_guard_strict pools0", "violation_fn": "c13_violations t0 reg0 ubis0"})
+	out.WriteJSON("meta.json", map[string]string{"case_type": "c13_case", "mismatch_fn": "c13_mismatches t0 reg0 ubis0 tree_config pools0", "violation_fn": "c13_violations t0 reg0 ubis0"})
 	out.WriteJSON("cases.json", js)
+	// the initial (genesis) state against the hard cap: reported in the evidence, not a clause (the property constrains acceptance)
+	genYearly := uint64(0)
+	for _, u := range app.UbiKeeper.GetUBIRecords(base) {
+		if u.Period != 0 {
+			genYearly += u.Amount * 31556952 / u.Period
+		}
+	}
+	genCap := app.CustomGovKeeper.GetNetworkProperties(base).UbiHardcap
 	out.WriteJSON("dist.json", map[string]interface{}{"seed": seed, "histories": len(js), "ops_by_kind_and_result": dist,
+		"initial_state": map[string]interface{}{"ubi_yearly_total": genYearly, "ubi_hardcap": genCap, "within_hardcap": genYearly <= genCap,
+			"ubi_records": ubiJSON(app.UbiKeeper.GetUBIRecords(base)), "native_registry_supply_minus_bank_supply": "constant over every history (C13_registry_supply_tracks_mints)"},
 		"denoms": denoms, "ubi_names": ubiNames, "pools": poolNames})
 	fmt.Fprintf(os.Stderr, "c13: %d histories\n", len(js))
 }
